@@ -2,7 +2,7 @@ from pyvc.cbase import Registry
 
 
 def build_registry():
-    from . import externs, expect, spawnbase, screen, ansi, utils, transports, lifecycle, readpath, pxssh, run, replwrap, aio, patterns, exact
+    from . import externs, expect, spawnbase, screen, ansi, utils, transports, lifecycle, readpath, pxssh, run, replwrap, aio, patterns, exact, interact
     reg = Registry()
     externs.register(reg)
     spawnbase.register(reg)
@@ -19,4 +19,5 @@ def build_registry():
     aio.register(reg)
     patterns.register(reg)
     exact.register(reg)
+    interact.register(reg)
     return reg
